@@ -1,6 +1,7 @@
 package keeper
 
 import (
+	sdk "github.com/cosmos/cosmos-sdk/types"
 	paramtypes "github.com/cosmos/cosmos-sdk/x/params/types"
 
 	"github.com/teleport-network/teleport/x/xibc/core/client/types"
@@ -20,7 +21,7 @@ func contains(xs []string, x string) bool {
 func freshRelayer(tag string, maxChains int) (string, []string, []string) {
 	var p types.RegisterRelayerProposal
 	p.Title, p.Description = "t", "d"
-	p.Address = rt.Str(tag + ".address")
+	p.Address = sdk.AccAddress(rt.BytesN(tag+".address", 20)).String() // a real bech32 account address
 	n := rt.IntRange(tag+".nchains", 1, maxChains)
 	for i := 0; i < n; i++ {
 		p.Chains = append(p.Chains, rt.StrN(tag+".chain", 3)) // structured: byte-exact comparison, letter case included
